@@ -844,6 +844,13 @@ let rec pr_old top = function
     (app (TLbrk :: [])
       (app
         (match i with
+         | EBin (o, a0, b) ->
+           (match o with
+            | BMul ->
+              (match a0 with
+               | ETuple l -> seqt_old top l (pr_old top b)
+               | _ -> pr_old top i)
+            | _ -> pr_old top i)
          | ETuple l ->
            (match l with
             | ENil -> TLpar :: (TRpar :: [])
